@@ -2,7 +2,7 @@
 which predicates are evaluated on the implementation's trace, and what is trusted."""
 import collections, hashlib, json, os
 from common import *
-import daemon, preds, trace
+import daemon, preds, trace, hostlist, redfish, speclayer
 
 TRUSTED_BASE = [
     'Lean 4.33.0 kernel (thorough tier: re-checked by leanchecker)',
@@ -114,8 +114,14 @@ def D(*a, **k):
     return DaemonLayer(list(a), **k)
 
 
+PROPS['C01'] = dict(layers=[D(P.p_c01, profile=dict(faults=0.4))], planned=['C01_validated (alias expansion)', 'C01_history_free at daemon level'])
+PROPS['C02'] = dict(layers=[D(P.p_c02_c03, profile=dict(faults=0.5))], planned=['C02_sound end-to-end (102 ⇒ every target commanded and answered ok)', 'C02_cli'])
+PROPS['C03'] = dict(layers=[D(P.p_c02_c03, P.p_c03_justified, profile=dict(faults=0.5))], planned=['C03_justified over whole runs', 'C03_no_memory'])
 PROPS['C04'] = dict(layers=[D(P.p_c04, P.p_c15)], planned=['C04_one_reply', 'C04_no_wedge', 'C04_tenure', 'C04_bound_partial'])
 PROPS['C10'] = dict(layers=[D(P.p_c10)], planned=['C10_head_only', 'C10_transcript', 'C10_fifo'])
+PROPS['C12'] = dict(layers=[D(P.p_c12, P.p_c04, profile=dict(pF6=0.02, calm=0.3))], planned=['C12_ioerr', 'C12_recover_partial'])
+PROPS['C14'] = dict(layers=[hostlist.HostlistLayer()], planned=['C14_roundtrip', 'C14_sort_perm', 'C14_three_hops'])
+PROPS['C17'] = dict(layers=[speclayer.SpecLayer()], planned=['specOK_sound: the static predicate implies no send reaches an undefined conversion and every $N read is a defined group, over the interpreter model'])
 PROPS['C11'] = dict(layers=[D(P.p_c11, profile=dict(maxclients=6))], planned=['C11_routing', 'C11_departure', 'C11_backpressure'])
 
 
